@@ -38,6 +38,9 @@ pub mod query;
 mod rule;
 mod token;
 pub mod walk;
+#[cfg(wax_verif)]
+#[doc(hidden)]
+pub mod verif;
 
 /// Re-exports of commonly used items.
 ///
